@@ -249,6 +249,29 @@ def run(eng, R):
         OBJ = ["_e['err']", "_o"]
         ok = any(common.like_any(src, ["_r = %s.relative" % o, "_v = %s.error_rel if _r else %s.error" % (o, o)] + (["_o = _e['err']"] if o == "_o" else []),
                                  ["_v = %s.error_rel if %s.relative else %s.error" % (o, o, o)] + (["_o = _e['err']"] if o == "_o" else [])) for o in OBJ)
+        # ... and every place that writes `error_value` (simple sources, matrix sources given as correlation matrix + values) writes values chosen that way
+        from ..termform import path_exprs as _path_exprs
+
+        def _pick_error_value(st):
+            out = []
+            from ..canon import _own_nodes
+            for c in _own_nodes(st):
+                if isinstance(c, ast.Call) and isinstance(c.func, ast.Name) and c.func.id == "dict":
+                    out += [k.value for k in c.keywords if k.arg == "error_value"]
+            if isinstance(st, ast.Assign) and isinstance(st.targets[0], ast.Subscript) and common.const_str(st.targets[0].slice) == "error_value":
+                out.append(st.value)
+            return out
+
+        n_writes, all_flagged = 0, True
+        for conds, e, env in _path_exprs(we.node, _pick_error_value):
+            from ..termform import subst as _subst
+            n_writes += 1
+            e2 = _subst(e, env)
+            rel = {pol for t, pol in conds if " ".join(ast.unparse(t).split()).endswith(".relative")}
+            attrs = {x.attr for x in ast.walk(e2) if isinstance(x, ast.Attribute) and x.attr in ("error", "error_rel")}
+            want = {True: {"error_rel"}, False: {"error"}}.get(next(iter(rel)) if len(rel) == 1 else None)
+            all_flagged = all_flagged and want is not None and attrs == want
+        ok = ok and all_flagged and n_writes >= 2
         R.ob("E4", "error source:error_value", ok, (we.file, we.lineno), "write_errors_to_yaml must write the relative error values of a relative source and the absolute ones otherwise")
         ok = any(common.like_any(src, ["_r = %s.relative" % o, "%s['matrix'] = %s.cov_mat_rel if _r else %s.cov_mat" % (tgt, o, o)] + (["_o = _e['err']"] if o == "_o" else []),
                                  ["%s['matrix'] = %s.cov_mat_rel if %s.relative else %s.cov_mat" % (tgt, o, o, o)] + (["_o = _e['err']"] if o == "_o" else []))
